@@ -103,14 +103,36 @@ def build(harness, flavour="c", out=None, repo="/repo", extra_defs=(), harness_s
         lock.close()
 
 
+PRIVATE_STRUCTS = [("internal/counter.c", "nsync_counter_s_", "HAVE_UUT_COUNTER_STRUCT"),
+                   ("platform/posix/src/nsync_semaphore_mutex.c", "mutex_cond", "HAVE_UUT_MUTEX_COND_STRUCT")]
+
+
+def write_uut_structs(repo, out):
+    """structs the code under test keeps private but the harnesses project state from: copied textually from the tree being checked,
+    so that a change to their layout does not make a harness read the wrong bytes (the harness keeps a fallback definition)"""
+    import re
+    text = ["/* generated by tools/vbuild.py from the tree under test */\n"]
+    for path, name, macro in PRIVATE_STRUCTS:
+        try:
+            src = open(os.path.join(repo, path)).read()
+        except OSError:
+            continue
+        m = re.search(r"^struct %s \{.*?^\};" % re.escape(name), src, re.S | re.M)
+        if m and "#" not in m.group(0):
+            text.append("#ifdef WANT_%s\n#define %s 1\n%s\n#endif\n" % (macro[5:], macro, m.group(0)))
+    with open(os.path.join(out, "uut_structs.h"), "w") as f:
+        f.write("".join(text))
+
+
 def _do_build(harness, flavour, out, repo, srcs, rt_srcs, inc, cc, uut_flags, wraps, extra_defs, exe):
     jobs = []
     objs = []
+    write_uut_structs(repo, out)
     for s in srcs:
         o = os.path.join(out, "uut_" + os.path.basename(s).replace(".", "_") + ".o")
         jobs.append((cc + uut_flags + inc + ["-c", os.path.join(repo, s), "-o", o], o, True))
         objs.append(o)
-    rt_inc = ["-I" + os.path.join(VERIF, "rt")] + includes(repo, "c")
+    rt_inc = ["-I" + os.path.join(VERIF, "rt"), "-I" + out] + includes(repo, "c")
     for s in rt_srcs:
         o = os.path.join(out, "rt_" + s.replace(".", "_") + ".o")
         jobs.append((["gcc", "-O1", "-g", "-fno-pic", "-fno-pie", "-Wall", "-Wno-unused-parameter"] + rt_inc + list(extra_defs)
